@@ -97,3 +97,14 @@ Theorem C10_from_slice_fuel_is_never_decisive :
   (forall bs, parse_value bs <> Err EFuel) /\ (forall bs, from_slice bs <> Err EFuel).
 Proof. split; [exact parse_value_not_fuel|exact from_slice_not_fuel]. Qed.
 Print Assumptions C10_from_slice_fuel_is_never_decisive.
+
+(* M6 (second review): the fuel the model passes is never what decides an answer, on ARBITRARY inputs -- also for the loops
+   whose exhaustion is an ordinary value (None, Ok None, Ok buf, PErr, the input itself), about which `<> Err EFuel` says
+   nothing: any fuel above the one the model passes gives the same answer (FuelIndep.v) *)
+From JB Require FuelIndep.
+Theorem C10_fuel_is_never_decisive :
+  (forall k bs, (length bs < k)%nat -> Codec.decode_jsonb k bs = Codec.decode_jsonb (S (length bs)) bs) /\
+  (forall k w bs, (S (length bs) < k)%nat -> Codec.decode_scalar k w bs = Codec.decode_scalar (S (S (length bs))) w bs) /\
+  (forall k bs, (length bs < k)%nat -> JsonText.parse_json_value k bs = JsonText.parse_json_value (S (length bs)) bs).
+Proof. split; [exact FuelIndep.decode_jsonb_any_fuel|split; [exact FuelIndep.decode_scalar_any_fuel|exact FuelIndep.parse_json_value_any_fuel]]. Qed.
+Print Assumptions C10_fuel_is_never_decisive.
